@@ -95,11 +95,20 @@ def gen_direct(rng):
         lb = np.minimum(lb, x)
         ub = np.maximum(ub, x)
         mode = "feasible"
+        if rng.random() < 0.5:  # entries sitting exactly on a bound, as proposals clipped by the optimizer do
+            on = rng.random(n)
+            lb = np.where(on < 0.3, x, lb)
+            ub = np.where(on > 0.7, x, ub)
+            mode = "feasible"
     elif rng.random() < 0.2 and s > 0:
         # feasible after multiplicative rescaling only
         w = rng.dirichlet(np.ones(n))
         lb = np.minimum(lb, w * s)
         ub = np.maximum(ub, w * s)
+        if rng.random() < 0.5:
+            on = rng.random(n)
+            lb = np.where(on < 0.3, w * s, lb)
+            ub = np.where(on > 0.7, w * s, ub)
         x = w * float(10 ** rng.uniform(-3, 9))
         mode = "rescale-feasible"
     return x, s, lb, ub, mode
